@@ -483,6 +483,26 @@ def c06 (ms : M) (e : Event) : List String :=
 
 /-! ## C07: resets only when agreed; forward-only SequenceReset; reset Logon numbering -/
 
+/-- EnableNextExpectedMsgSeqNum (no property speaks about tag 789: the option is tied by the correspondence; this helper only
+    keeps C20's tracking of the heartbeat interval exact).  Our next outbound number as the acceptor's `sendLogonInReplyTo`
+    compares the peer's tag 789 with it: before the reply, after a reset the Logon causes (ResetOnLogon, an honoured ResetSeqNumFlag).  A reply carrying 141=Y resets the store once more on its way
+    out (prepMessageForSend): that reset, the last one before the reply is saved, is not counted. -/
+def senderAtLogon (S0 : Int) (items : List Item) : Int :=
+  let pre := items.takeWhile fun i => match i with
+    | .store ("save" :: _) => false
+    | .store ["incS"] => false
+    | .wire .. => false
+    | .onLogon => false
+    | _ => true
+  let resets := (pre.filter fun i => i == .store ["reset"]).length
+  let replyResets := match (wires items).head? with
+    | some (k, _, f) => k == "A" && fget f 141 == some "Y"
+    | none => false
+  if resets > (if replyResets then 1 else 0) then 1 else S0
+
+/-- tag 789 of an inbound Logon when it is a number -/
+def peer789 (m : InMsg) : Option Int := (fget m.f 789).bind numeric?
+
 def c07 (ms : M) (e : Event) : List String :=
   let cfg := ms.cfg
   let prev := ms.prev
@@ -769,8 +789,16 @@ def monitorStep (ms : M) (e : Event) : M × List String :=
     let b08t := if ms.g8.ok && !g8'.ok && s08.bad.isEmpty then ["C08.theorem_monitor_rejects"] else []
     -- heartbeat interval in force after this event: an acceptor takes 108 from an accepted Logon unless overridden
     let hb' := match inboundOf ms e.op with
-      | some m => if kindOf m == "A" && !ms.cfg.initiator && !ms.cfg.hbOverride && (e.items.contains .onLogon || (e.items.any fun i => match i with | .wire "A" _ _ => true | _ => false)) then
-                    (match (fget m.f 108).bind numeric? with | some h => h | none => ms.hb) else ms.hb
+      | some m =>
+        let h := (match (fget m.f 108).bind numeric? with | some h => h | none => ms.hb)
+        if kindOf m == "A" && !ms.cfg.initiator && !ms.cfg.hbOverride && (e.items.contains .onLogon || (e.items.any fun i => match i with | .wire "A" _ _ => true | _ => false)) then h
+        -- (a Logon refused because its tag 789 is ahead of us has got as far as the acceptor's reply: the interval is adopted
+        --  there — the property does not say whether it should be; the timer decides which interval is in force)
+        else if kindOf m == "A" && !ms.cfg.initiator && !ms.cfg.hbOverride && ms.cfg.nextExpected
+                && (e.items.any fun i => match i with | .fromAdmin "A" _ => true | _ => false)
+                && (match peer789 m with | some x => decide (x > senderAtLogon ms.S e.items) | none => false)
+                && e.items.contains (.armPeer (1200 * h)) then h
+        else ms.hb
       | none => ms.hb
     let lastArm := (e.items.filterMap fun i => match i with | .armPeer x => some x | _ => none).getLast?
     let hb' := if drained then (match lastArm with | some x => x / 1200 | none => hb') else hb'
